@@ -10,7 +10,7 @@ class SpecC07(e3_driver.Spec):
                'Union', 'Union', 'NeuralBound', 'NautilusBound',
                'NautilusBound']
     profile = dict(max_len=7, w_split=3, w_trim=2, w_sample=4, w_restart=1,
-                   w_update=0, w_pool=2)
+                   w_update=0, w_pool=2, p_big=0.03)
     chunk = 10
     runs = dict(quick=1000, thorough=16000)
     rule = ('one case = a bound of a seeded class built from a seeded point '
